@@ -34,7 +34,22 @@ class DeferredSet:
         self.items = []      # (obj, kept Bool)
 
 
+class AddLog:
+    """a set whose previous content is arbitrary: only the additions made to it are recorded; every other use is out of subset
+    (loop-step lemma of get_schedules, DESIGN.md 9.8)"""
+    def __init__(self):
+        self.adds = []
+
+
 def sched_method(ip, o, name, args, kw, ctx):
+    if isinstance(o, AddLog):
+        if name == "add":
+            o.adds.append(args[0])
+            return None
+        if name == "__getattr__" and args[0] == "add":
+            from .interp import MethodRef
+            return MethodRef(o, "add")
+        raise _uns(f"{name} {args[0] if name == '__getattr__' else ''} on an add-only set")
     if isinstance(o, MaskSet):
         if name == "__bool__":
             return simp(z3.Or([zb(o.has(d)) for d in o.cls]))
